@@ -31,6 +31,7 @@ fn setup(ctx: &mut Ctx) {
     ctx.floor("strtab:must-fail", 20);
     ctx.floor("entsize-clause:rejected", 200);
     ctx.floor("threshold-count-file", 200);
+    ctx.floor("header-tables-sharing-bytes", 1000);
     ctx.floor("extended-numbering-cuts:prefixes", 100_000);
     for e in Enc::ALL {
         ctx.floor(&format!("enc:{}", e.name()), 100);
@@ -345,6 +346,12 @@ fn run(ctx: &mut Ctx, si: usize, case: u64) {
                     mutate::structured(&mut ctx.rng, &mut b, 1).pop()
                 };
                 if let Some(l) = l {
+                    log.push(l);
+                }
+            }
+            if ctx.rng.chance(1, 10) {
+                if let Some(l) = mutate::alias_tables(&mut ctx.rng, &mut b) {
+                    ctx.count("header-tables-sharing-bytes");
                     log.push(l);
                 }
             }
